@@ -394,6 +394,7 @@ def run(ck: Check):
     route_failures = []  # {"case", "route", "baseline", "value" | "error"}
     probe_failures = []  # (probe, result)
     interleaved_failures = []  # (plan, records)
+    shared_failures = []  # (plan, records)
     rng = ck.rng
     thorough = ck.thorough()
     try:
@@ -533,6 +534,23 @@ def run(ck: Check):
             ck.bucket("live/interleaved/evaluations", len(recs))
             if any(LV.failing(r) for r in recs):
                 interleaved_failures.append((plan, recs))
+        # ---- SHARED SUB-OBJECTS: 2-3 live likelihoods referring to ONE Taxa / Alignment / SitePattern / substitution / site model
+        #      (through JSON references and through Python object sharing), each with its own tree (another topology over the same
+        #      taxa) and its own options (tip states / partials, ambiguities, use_postorder_indices); evaluated interleaved, a SHARED
+        #      parameter updated, each against its own brute-force oracle; what the shared SitePattern hands out must stay intact
+        for h in range(60 if thorough else 14):
+            try:
+                plan = LV.gen_shared(rng)
+                recs = LV.run_shared(plan)
+            except InfraError:
+                raise
+            except Exception as e:  # noqa: BLE001
+                ck.mismatch("shared-sub-object plan could not be evaluated", {"error": repr(e)[:300]})
+                continue
+            ck.case(key=("shared", h, plan["via"], plan["consumers"][0]["newick"]), bucket=f"live/shared/{plan['via']}/{len(plan['consumers'])}-consumers")
+            ck.bucket("live/shared/postorder-consumers", sum(1 for c in plan["consumers"] if c.get("tree_options")))
+            if any(LV.failing(r) for r in recs):
+                shared_failures.append((plan, recs))
         mutation_failures = []
         for i in range(8 if thorough else 2):
             try:
@@ -566,11 +584,18 @@ def run(ck: Check):
             "torchtree/evolution/tree_likelihood.py", "torchtree/evolution/tree_model.py", "torchtree/evolution/site_pattern.py",
             "torchtree/evolution/alignment.py", "torchtree/evolution/datatype.py", "torchtree/evolution/branch_model.py"])
         # ---- LIVE-object histories: update parameters of ONE model object through the public interface
-        for h in range(250 if thorough else 45):
-            n = rng.choice([3, 4, 5, 6])
-            case, use_prior, ops = LV.gen_live(rng, n)
+        #      every substitution-model CLASS takes part (MG94 / codon, LG, WAG, GeneralJC69, general symmetric / non-symmetric on a
+        #      GeneralDataType, and the nucleotide ones), every parameter of each, with requires_grad off and on
+        classes = [("MG94", False), ("LG", False), ("WAG", False), (None, True), (None, True), ("JC69", False), ("HKY", False),
+                   ("GTR", False), ("GeneralSymmetric", False), ("GeneralNonSymmetric", False), (None, False), (None, False)]
+        for h in range(250 if thorough else 48):
+            sub_kind, general = classes[h % len(classes)]
+            rg = (h // len(classes)) % 2 == 1
+            n = 3 if sub_kind == "MG94" else (rng.choice([3, 4]) if (general or sub_kind in ("LG", "WAG")) else rng.choice([3, 4, 5, 6]))
+            case, use_prior, ops = LV.gen_live(rng, n, subst=sub_kind, general=general)
             lean_fresh = (lambda snap: json_case_lean(ck, drv, torch, snap, "live")) if drv and rng.random() < 0.4 else None
-            recs = LV.run_live(case, use_prior, ops, on_fresh=lean_fresh)
+            recs = LV.run_live(case, use_prior, ops, on_fresh=lean_fresh, requires_grad=rg)
+            ck.bucket(f"live/class/{case['subst']['kind']}/requires_grad={rg}")
             kind = "reparam" if case.get("ratios") is not None else case["rooting"]
             ck.case(key=("live", h, json.dumps(ops)[:300]), bucket=f"live/{kind}/" + ("prior" if use_prior else "noprior"),
                     sample={"kind": kind, "ops": [o["op"] + ":" + o.get("param", o.get("what", "")) for o in ops],
@@ -578,7 +603,7 @@ def run(ck: Check):
             ck.bucket("live/evaluations", len(recs))
             ck.bucket("live/updates", sum(1 for o in ops if o["op"] == "set"))
             if any(LV.failing(r) for r in recs):
-                live_failures.append((case, use_prior, ops, recs))
+                live_failures.append((case, use_prior, ops, recs, rg))
     finally:
         if drv:
             drv.close()
@@ -599,22 +624,22 @@ def run(ck: Check):
     if live_failures:
         found = True
         live_failures.sort(key=lambda f: (len(f[0]["taxa"]), len(f[2])))
-        case, use_prior, ops, recs = live_failures[0]
+        case, use_prior, ops, recs, rg = live_failures[0]
         t_shrink = time.time()
         try:
             if len(ops) <= 30:
-                use_prior, ops = LV.shrink(case, use_prior, ops, deadline=t_shrink + 40)
-                recs = LV.run_live(case, use_prior, ops)
+                use_prior, ops = LV.shrink(case, use_prior, ops, deadline=t_shrink + 40, requires_grad=rg)
+                recs = LV.run_live(case, use_prior, ops, requires_grad=rg)
         except Exception as e:  # noqa: BLE001
             ck.notes.append("shrinking failed: " + repr(e)[:200])
         bad = next((r for r in recs if LV.failing(r)), recs[-1])
         kind = "reparam" if case.get("ratios") is not None else case["rooting"]
         ck.violation(
-            "TreeLikelihoodModel:live:" + kind,
+            "TreeLikelihoodModel:live:" + kind + ":" + case["subst"]["kind"],
             f"after the history {[o['op'] + ':' + o.get('param', o.get('what', '')) for o in ops]} the live model returns "
             f"{bad['impl']} but the marginal over all labelings at the current values is {bad['oracle']} and a freshly built "
             f"model gives {bad['fresh']} ({len(live_failures)} failing histories)",
-            {"live": {"case": case, "use_prior": use_prior, "ops": ops}, "records": [{k: v for k, v in r.items() if k != "case"} for r in recs],
+            {"live": {"case": case, "use_prior": use_prior, "ops": ops, "requires_grad": rg}, "records": [{k: v for k, v in r.items() if k != "case"} for r in recs],
              "broken_obligations": broken, "replay_cmd": "./check C01 --replay <this file>"},
         )
     if interleaved_failures:
@@ -642,6 +667,20 @@ def run(ck: Check):
             f"(a model built alone gives {bad['fresh']}; {len(interleaved_failures)} failing plans)",
             {"interleaved": plan, "records": [{k: v for k, v in r.items() if k != "case"} for r in recs][:40],
              "replay_cmd": "./check C01 --replay <this file>"},
+        )
+    if shared_failures:
+        found = True
+        shared_failures.sort(key=lambda f: (not any(LV.failing(r) and r["instance"] >= 0 for r in f[1]), len(f[0]["consumers"]), len(json.dumps(f[0]))))
+        plan, recs = shared_failures[0]
+        bad = next((r for r in recs if LV.failing(r) and r["instance"] >= 0), None) or next(r for r in recs if LV.failing(r))
+        ck.violation(
+            "TreeLikelihoodModel:shared-sub-objects",
+            f"{len(plan['consumers'])} likelihoods sharing one Taxa / Alignment / SitePattern / substitution / site model ({plan['via']}; "
+            f"options {[(c.get('use_tip_states'), c.get('use_ambiguities'), bool(c.get('tree_options'))) for c in plan['consumers']]}): "
+            + (f"consumer {bad['instance']} ({bad.get('kind')}) returns {bad['impl']} but the marginal for ITS OWN tree and options is {bad['oracle']}"
+               if bad["instance"] >= 0 else f"{bad.get('kind', 'construction')} failed: {bad.get('error', 'the tip list handed out by the shared SitePattern was altered by a consumer')}")
+            + f" ({len(shared_failures)} failing plans)",
+            {"shared": plan, "records": recs, "replay_cmd": "./check C01 --replay <this file>"},
         )
     for route in sorted(set(f["route"] for f in route_failures)):
         found = True
@@ -767,6 +806,14 @@ def replay(path: str) -> int:
         res = RG.run_probe(obj["probe"])
         print(f"probe {obj['probe']['kind']}: {json.dumps({k: v for k, v in res.items() if k != 'where'}, default=str)[:600]}; {'ok' if res['ok'] else 'VIOLATES'}")
         return 0 if res["ok"] else 1
+    if obj.get("shared"):
+        recs = LV.run_shared(obj["shared"])
+        bad = False
+        for r in recs:
+            f = LV.failing(r)
+            bad = bad or f
+            print(f"consumer {r['instance']} {r.get('kind', '')}: live = {r['impl']!r}; marginal for its own tree/options = {r['oracle']!r}; {'VIOLATES' if f else 'ok'} {r.get('error', '')}")
+        return 1 if bad else 0
     if obj.get("interleaved"):
         recs = LV.run_interleaved(obj["interleaved"])
         bad = False
@@ -780,7 +827,7 @@ def replay(path: str) -> int:
         return 1 if bad else 0
     if obj.get("live"):
         lv = obj["live"]
-        recs = LV.run_live(lv["case"], lv["use_prior"], lv["ops"])
+        recs = LV.run_live(lv["case"], lv["use_prior"], lv["ops"], requires_grad=bool(lv.get("requires_grad")))
         bad = False
         for r in recs:
             f = LV.failing(r)
